@@ -6,6 +6,7 @@ import (
 	"fmt"
 	"reflect"
 	"strconv"
+	"strings"
 
 	"github.com/mattn/anko/ast"
 	"github.com/mattn/anko/env"
@@ -218,28 +219,18 @@ func equal(lhsV, rhsV reflect.Value) bool {
 	}
 
 	// Compare a string and a number.
-	// This will attempt to convert the string to a number,
-	// while leaving the other side alone. Code further
-	// down takes care of converting ints and floats as needed.
+	// The string is converted to the number its decimal numeral denotes, the
+	// same way whichever side it is on. Code further down takes care of
+	// comparing ints and floats as needed.
 	if isNum(lhsV) && rhsV.Kind() == reflect.String {
-		rhsF, err := tryToFloat64(rhsV)
-		if err != nil {
-			// Couldn't convert RHS to a float, they can't be compared.
+		var ok bool
+		if rhsV, ok = numeralToNum(rhsV.String()); !ok {
 			return false
 		}
-		rhsV = reflect.ValueOf(rhsF)
 	} else if lhsV.Kind() == reflect.String && isNum(rhsV) {
-		// If the LHS is a string formatted as an int, try that before trying float
-		lhsI, err := tryToInt64(lhsV)
-		if err != nil {
-			// if LHS is a float, e.g. "1.2", we need to set lhsV to a float64
-			lhsF, err := tryToFloat64(lhsV)
-			if err != nil {
-				return false
-			}
-			lhsV = reflect.ValueOf(lhsF)
-		} else {
-			lhsV = reflect.ValueOf(lhsI)
+		var ok bool
+		if lhsV, ok = numeralToNum(lhsV.String()); !ok {
+			return false
 		}
 	}
 
@@ -251,11 +242,12 @@ func equal(lhsV, rhsV reflect.Value) bool {
 		if !lhsIsFloat && !rhsIsFloat {
 			return toInt64(lhsV) == toInt64(rhsV)
 		}
-		// when both are same kind, direct comparison is safe
-		if lhsKind == rhsKind {
+		// same kind, or an integer and a float: compare as float64,
+		// which is what <= and >= do
+		if lhsKind == rhsKind || !lhsIsFloat || !rhsIsFloat {
 			return toFloat64(lhsV) == toFloat64(rhsV)
 		}
-		// mixed types: use string representation for compatibility
+		// float32 and float64: use string representation for compatibility
 		// (e.g. float32(1.1) should equal float64(1.1))
 		return numToString(lhsV) == numToString(rhsV)
 	}
@@ -274,6 +266,22 @@ func equal(lhsV, rhsV reflect.Value) bool {
 	}
 
 	return reflect.DeepEqual(lhsV.Interface(), rhsV.Interface())
+}
+
+// numeralToNum converts a decimal numeral to the number it denotes: an int64
+// if it is a decimal integer that fits, else a float64. Hexadecimal floats,
+// which strconv.ParseFloat accepts, are not decimal numerals.
+func numeralToNum(s string) (reflect.Value, bool) {
+	if i, err := strconv.ParseInt(s, 10, 64); err == nil {
+		return reflect.ValueOf(i), true
+	}
+	if strings.ContainsAny(s, "xX") {
+		return nilValue, false
+	}
+	if f, err := strconv.ParseFloat(s, 64); err == nil {
+		return reflect.ValueOf(f), true
+	}
+	return nilValue, false
 }
 
 // isHashable returns true if the value can be used as a map key without
